@@ -18,10 +18,13 @@ def gen_consts(v):
 # t<k> = for every universe, the port Universe::SendRDMRequest hands a unicast request for uid 1..3 to
 # (public behaviour of the UID routing table): property-determined.  q<k> = discoveries in flight per
 # output port (mock-side bookkeeping): internal.
+# n<k> = name / merge mode of every universe in the store, v<k> = the saved settings (preferences) of
+# every universe number that was ever in the store: property-determined ('collected with its settings saved').
 # p<k> = priority value/mode per port: the property only bounds the value (d<k> carries a '!prio>max'
 # marker for that); the exact value is a correspondence detail, hence non-SPEC.  b<k>, f<k>: broker, prefs.
 SPEC_KEYS = ['d'] + ['r%d' % i for i in range(MAX_OPS)] + ['d%d' % i for i in range(MAX_OPS)] + \
-            ['t%d' % i for i in range(MAX_OPS)]
+            ['t%d' % i for i in range(MAX_OPS)] + ['n%d' % i for i in range(MAX_OPS)] + \
+            ['v%d' % i for i in range(MAX_OPS)]
 INTERNAL_KEYS = []
 
 # The internal observables are read from private members.  They are only compiled in (and only
@@ -57,7 +60,7 @@ RULE = ('histories of patch/unpatch/set-priority/GC/client add+remove/port data/
         'every branch of GenericPatchPort / GenericUnPatchPort (same universe, loop refusal, multi-port refusal, veto '
         'on a fresh port, veto on a patched port + GC + use, refused un-patch + GC + use, null port), of '
         'SetPriorityStatic (199/200/201/255, uint8 wrap), of RestorePortSettings (restore vetoed / refused by policy), '
-        'unregister+stop+GC+re-register, RegisterForDmx(UNREGISTER) on a missing universe, the input and output port with the same port id (ids are per device and direction, as on real devices) to one universe under each policy, a universe going idle twice between collections, Device::AddPort with an id already in use, Start/Stop twice and DeleteAllPorts with patched ports, scale sweeps (15/16/17/32/33/40 ports or universes going idle between two collections), RDM discoveries started on patch that complete after re-patch / unpatch / GC / device stop, DMX frames (UpdateDmxData) interleaved with housekeeping runs (GC + CleanStaleSourceClients) where a sending source client is the only referrer; state compared after '
+        'unregister+stop+GC+re-register, RegisterForDmx(UNREGISTER) on a missing universe, the input and output port with the same port id (ids are per device and direction, as on real devices) to one universe under each policy, a universe going idle twice between collections, universe SetName/SetMergeMode across several lives of one universe number with the saved values compared, UniverseStore::DeleteAll in mid-history (no port patched) followed by use and GC, every case at log level DEBUG, Device::AddPort with an id already in use, Start/Stop twice and DeleteAllPorts with patched ports, scale sweeps (15/16/17/32/33/40 ports or universes going idle between two collections), RDM discoveries started on patch that complete after re-patch / unpatch / GC / device stop, DMX frames (UpdateDmxData) interleaved with housekeeping runs (GC + CleanStaleSourceClients) where a sending source client is the only referrer; state compared after '
         'every op; non-trivial = at least one successful patch and one later state-changing op; distinct = distinct '
         'model output trace')
 ASSUMPTIONS = ['PreSetUniverse(old, new) is a function of the port, the number of the new universe (or NULL) and the '
@@ -81,7 +84,7 @@ TRUSTED = ['modelled rather than verified: PortManager.cpp (GenericPatchPort wit
            '(replicated in the harness; RDM discovery scheduling not modelled)',
            'the sibling view handed to the veto function is computed eagerly in the model (the code evaluates the '
            'hook only when SetUniverse is reached); device aliases and time-code port set not modelled',
-           'wave 7: Device::AddPort with an id already in use (ignored), Device::Start, Device::DeleteAllPorts called directly; scale sweeps up to 40 ports / universes (the model and theorems are unbounded)', 'modelled since wave 6: BasicOutputPort::SetUniverse discovery-on-patch with deferred completion (UpdateUIDs), Universe::NewUIDList and the uid erase of GenericRemovePort (as pruning after each op), observed through Universe::SendRDMRequest; a deleted port drops its pending completions (mock destructor), RDM request completions through PortBroker::RequestComplete not modelled', 'not modelled: full/periodic RDM discovery (RunRDMDiscovery), PortBroker RDM request routing, export-map counters, '
+           'wave 8: every case runs at log level DEBUG with a consuming destination; universe name / merge mode (SetName, SetMergeMode, restore at creation only, save at collection and in DeleteAll) with the saved VALUES compared; UniverseStore::DeleteAll in mid-history, issued only while no port is patched (with patched ports the unchanged code leaves them dangling: shutdown order is the caller\'s obligation)', 'wave 7: Device::AddPort with an id already in use (ignored), Device::Start, Device::DeleteAllPorts called directly; scale sweeps up to 40 ports / universes (the model and theorems are unbounded)', 'modelled since wave 6: BasicOutputPort::SetUniverse discovery-on-patch with deferred completion (UpdateUIDs), Universe::NewUIDList and the uid erase of GenericRemovePort (as pruning after each op), observed through Universe::SendRDMRequest; a deleted port drops its pending completions (mock destructor), RDM request completions through PortBroker::RequestComplete not modelled', 'not modelled: full/periodic RDM discovery (RunRDMDiscovery), PortBroker RDM request routing, export-map counters, '
            'DMX merging (C01), file format / parsing of the preferences (C18), content of the saved universe settings',
            'the PortBroker and port-preference observables (b<k>, f<k>) and the GC candidate set (c<k>) are compared '
            'as internal keys: the property text does not mention them',
@@ -144,7 +147,8 @@ def rand_op(rng, devs, ports, pool):
     c = rng.randrange(3)
     if r < 0.40: return 'P.%d.%d' % (p, n)
     if r < 0.50: return 'U.%d' % p
-    if r < 0.60: return 'G'
+    if r < 0.59: return 'G'
+    if r < 0.60: return rng.choice(['SN.%d.%d' % (n, rng.randrange(4)), 'SM.%d.%d' % (n, rng.randrange(2)), 'SN.%d.%d' % (n, rng.randrange(4)), 'DL'])
     if r < 0.615: return rng.choice(['A.%d' % p, 'A.%d' % p, 'ST.%d' % rng.randrange(len(devs) + 1), 'DA.%d' % rng.randrange(len(devs) + 1)])
     if r < 0.63: return 'R.%d' % rng.randrange(len(devs) + 1)
     if r < 0.655: return 'N.%d' % rng.randrange(len(devs) + 1)
@@ -165,7 +169,7 @@ def rand_op(rng, devs, ports, pool):
 
 def directed(rng, devs, ports, pool):
     """prefixes aimed at the branches of GenericPatchPort"""
-    kind = rng.randrange(28)
+    kind = rng.randrange(32)
     np_ = len(ports)
     ops = []
     if kind == 0:
@@ -250,6 +254,27 @@ def directed(rng, devs, ports, pool):
         a, b = rng.sample(pool, 2)
         ops = ['P.%d.%d' % (k, a), 'P.%d.%d' % (p, a), 'P.%d.%d' % (p, b), 'P.%d.%d' % (p, a), 'G',
                'U.%d' % k, 'P.%d.%d' % (p, a), 'G']
+    elif kind in (28, 29):
+        # several lives of one universe number: settings changed, collected (saved), re-created (restored),
+        # changed again while live, another referrer arrives, collected again: the CURRENT values are saved
+        a = rng.choice(pool)
+        p = rng.randrange(np_); q = rng.randrange(np_)
+        for i in (p, q):
+            ports[i][3] = [x for x in ports[i][3] if x != a]; ports[i][4] = '-'
+        v1, v2 = rng.sample([1, 2, 3], 2)
+        ops = ['P.%d.%d' % (p, a), 'SN.%d.%d' % (a, v1), 'SM.%d.1' % a, 'U.%d' % p, 'G',
+               'P.%d.%d' % (p, a), 'SN.%d.%d' % (a, v2), 'SM.%d.0' % a,
+               rng.choice(['P.%d.%d' % (q, a), 'RA.%d.1' % a, 'KA.%d.2' % a]),
+               'U.%d' % p, 'U.%d' % q, 'RU.%d.1' % a, 'KR.%d.2' % a, 'G',
+               'RA.%d.0' % a, 'RU.%d.0' % a, rng.choice(['G', 'H', 'DL'])]
+    elif kind in (30, 31):
+        # UniverseStore::DeleteAll in mid-history while an idle universe is queued, then continued use + GC
+        a, b = rng.sample(pool, 2)
+        p = rng.randrange(np_)
+        ports[p][3] = []; ports[p][4] = '-'
+        ops = ['RA.%d.1' % a, 'SN.%d.2' % a, 'RU.%d.1' % a, 'P.%d.%d' % (p, b), 'U.%d' % p, 'NA'] + \
+              ['U.%d' % i for i in range(np_)] + ['DL', 'G', 'RA.%d.1' % a, 'P.%d.%d' % (p, b), 'G',
+               'U.%d' % p, 'RU.%d.1' % a, 'DL', 'DL', 'G']
     elif kind == 24:
         # Device::AddPort with a new object re-using the id of a port that is already patched: ignored
         d = rng.randrange(len(devs))
